@@ -77,6 +77,7 @@ class _SelectModule(object):
         clock = CLOCK
         for s in r:
             s.net.n_select += 1
+            s.net.spend("select_budget")
         ready = [s for s in r if s.inq and s.inq[0][0] <= clock.now]
         if ready:
             return ready, [], []
@@ -168,6 +169,13 @@ class Net(object):
         self.sockets = []
         self.n_tx = 0
         self.n_select = 0
+        # bounded progress in logical steps: no case of any check sends or
+        # polls anywhere near this often; a library loop that never ends
+        # but keeps sending / polling becomes a verdict with a witness
+        # instead of a wall-clock watchdog (which is inconclusive).  A
+        # harness may set tighter budgets for one call.
+        self.tx_budget = 3000000
+        self.select_budget = 20000000
         self.truncated = 0
         self._n = itertools.count()
 
@@ -186,7 +194,22 @@ class Net(object):
         return _SelectModule
 
     # ---- traffic
+    def spend(self, what):
+        left = getattr(self, what) - 1
+        setattr(self, what, left)
+        if left < 0:
+            from ..core import Violation
+            setattr(self, what, 10 ** 9)    # report once, let it unwind
+            raise Violation(
+                "no-bounded-progress",
+                "the call under test exceeded its budget of %s (%d datagrams "
+                "sent, %d select() calls so far): it does not terminate in a "
+                "bounded number of steps" % (
+                    "transmissions" if what == "tx_budget" else
+                    "select() calls", self.n_tx, self.n_select))
+
     def transmit(self, sock, data):
+        self.spend("tx_budget")
         n = self.n_tx
         self.n_tx += 1
         sock.sent += 1
